@@ -34,6 +34,8 @@ def build_permuted(T, v, bridge, rng):
         for n in names:
             ft = [f for fn, f, m in T['fields'] if fn == n][0]
             obj.setComponentByName(n, build_permuted(ft, v[n], bridge, rng))
+        if not T['fields']:
+            obj.clear()         # record type without members: the empty value, not the schema object
         return obj
     if k in ('SEQUENCEOF',):
         if v and rng.random() < 0.6:
@@ -463,7 +465,9 @@ def chk_native(T, v, M, rng):
     for (tname, tree), (ename, enc) in itertools.product(trees, (('BER', be), ('CER', ce), ('DER', de))):
         n += 1
         try:
-            a = enc.encode(val)
+            # the equivalent value object, freshly built: `val` has been read by the native encoder above, and reads
+            # are the subject of C04/C19 (KF-read-instantiates-optional-record), not of this check
+            a = enc.encode(bridge.to_value(T, v))
         except Exception:
             continue
         try:
